@@ -39,4 +39,13 @@ macro_rules! model_prelude {
 macro_rules! aw {
     ($e:expr) => { crate::vreplay_support::block_on($e) };
 }
+/// the harness files of this crate (inside `worterbuch::h`, next to the private items of worterbuch.rs)
+macro_rules! wb_harnesses {
+    () => {
+        include!("/verif/kani/wb/src/h/c03.rs");
+        include!("/verif/kani/wb/src/h/c08.rs");
+        include!("/verif/kani/wb/src/h/c07.rs");
+        include!("/verif/kani/wb/src/h/probe.rs");
+    };
+}
 include!("/verif/kani/wb/src/body.rs");
